@@ -57,7 +57,8 @@ type c11Dag struct {
 	idents  []string
 	logs    []*ipfslog.IPFSLog
 	entries map[cid.Cid]*c11Entry
-	order   []cid.Cid // entry cids, sorted by cid string
+	order   []cid.Cid  // entry cids, sorted by cid string
+	gate    *c11GateAC // access controller of every replica (refuses appends while gate.deny is set)
 }
 
 // c11LinkKey, when set, makes c11IO return a cbor IO that encrypts the next/refs links of the blocks
@@ -92,9 +93,9 @@ func c11NewDag(kind string, identNames []string) *c11Dag {
 		}
 	}
 	env := c11NewIdentEnv(names...)
-	d := &c11Dag{kind: kind, api: api, dag: dag, env: env, idents: identNames, entries: map[cid.Cid]*c11Entry{}}
+	d := &c11Dag{kind: kind, api: api, dag: dag, env: env, idents: identNames, entries: map[cid.Cid]*c11Entry{}, gate: &c11GateAC{}}
 	for _, n := range identNames {
-		l, err := ipfslog.NewLog(api, env.identity(n), &ipfslog.LogOptions{ID: "X", IO: c11IO()})
+		l, err := ipfslog.NewLog(api, env.identity(n), &ipfslog.LogOptions{ID: "X", IO: c11IO(), AccessController: d.gate})
 		if err != nil {
 			panic(err)
 		}
